@@ -806,6 +806,12 @@ def map_selection(
 
     num_input_blocks = (max_num_input_blocks,)
 
+    if max_num_input_blocks > 1:
+        # Input blocks are retrieved one at a time from an iterator, but the previous block is
+        # still referenced while the next one is being read, so allow for an extra input chunk
+        # (as in partial_reduce).
+        kwargs.setdefault("extra_projected_mem", x.chunkmem)
+
     out = general_blockwise(
         _assemble_index_chunk,
         back_key_function,
